@@ -128,9 +128,34 @@ impl Borrow<str> for SItem {
 }
 
 /// A priority that counts comparisons and can be told to panic at the k-th one.
-#[derive(Debug, Serialize, Deserialize, PartialEq, Eq)]
+///
+/// `Ord` and `Eq` look at `rank(value)` only: values at or above `TAG_BASE` carry a 3-bit tag that takes no part in
+/// the order (a "payload-carrying priority": two priorities can compare `Equal` and still be distinguishable).  Below
+/// `TAG_BASE` the rank is the value itself.  `rank` is monotone, so the order is a total preorder; `Eq` is consistent
+/// with `Ord`.  The Lean driver (`PQ.Driver.Pr`) and `tools/judge.py` use the same function.
+#[derive(Debug, Serialize, Deserialize)]
 #[serde(from = "i64")]
 pub struct Pri(pub i64);
+
+pub const TAG_BASE: i64 = 1 << 40;
+pub fn rank(v: i64) -> i64 {
+    if v < TAG_BASE {
+        v
+    } else {
+        TAG_BASE + (v - TAG_BASE) / 8
+    }
+}
+/// the priority value with rank `TAG_BASE + r` and tag `t`
+pub fn tagged(r: u64, t: u64) -> i64 {
+    TAG_BASE + 8 * r as i64 + (t % 8) as i64
+}
+
+impl PartialEq for Pri {
+    fn eq(&self, o: &Self) -> bool {
+        rank(self.0) == rank(o.0)
+    }
+}
+impl Eq for Pri {}
 
 impl From<i64> for Pri {
     fn from(v: i64) -> Self {
@@ -170,7 +195,7 @@ impl Ord for Pri {
             FUSE.with(|f| f.set(0));
             panic!("injected: cmp panic");
         }
-        self.0.cmp(&o.0)
+        rank(self.0).cmp(&rank(o.0))
     }
 }
 impl PartialOrd for Pri {
@@ -194,6 +219,24 @@ pub type HRandom = std::collections::hash_map::RandomState;
 pub type HFixed = BuildHasherDefault<std::hash::SipHasher>;
 pub type HXx = BuildHasherDefault<twox_hash::XxHash64>;
 pub type HZero = BuildHasherDefault<ZeroHasher>;
+
+/// The hashers the harness instantiates the queues with.  `new()` / `with_capacity()` exist for the default hasher only:
+/// `ctor_pq` / `ctor_dpq` use them where they exist and fall back to the generic constructor otherwise.
+pub trait HX: std::hash::BuildHasher + Default + Clone + std::fmt::Debug {
+    fn pq_new() -> priority_queue::PriorityQueue<SItem, Pri, Self> { priority_queue::PriorityQueue::with_default_hasher() }
+    fn pq_with_capacity(c: usize) -> priority_queue::PriorityQueue<SItem, Pri, Self> { priority_queue::PriorityQueue::with_capacity_and_default_hasher(c) }
+    fn dpq_new() -> priority_queue::DoublePriorityQueue<SItem, Pri, Self> { priority_queue::DoublePriorityQueue::with_default_hasher() }
+    fn dpq_with_capacity(c: usize) -> priority_queue::DoublePriorityQueue<SItem, Pri, Self> { priority_queue::DoublePriorityQueue::with_capacity_and_default_hasher(c) }
+}
+impl HX for HRandom {
+    fn pq_new() -> priority_queue::PriorityQueue<SItem, Pri, Self> { priority_queue::PriorityQueue::new() }
+    fn pq_with_capacity(c: usize) -> priority_queue::PriorityQueue<SItem, Pri, Self> { priority_queue::PriorityQueue::with_capacity(c) }
+    fn dpq_new() -> priority_queue::DoublePriorityQueue<SItem, Pri, Self> { priority_queue::DoublePriorityQueue::new() }
+    fn dpq_with_capacity(c: usize) -> priority_queue::DoublePriorityQueue<SItem, Pri, Self> { priority_queue::DoublePriorityQueue::with_capacity(c) }
+}
+impl HX for HFixed {}
+impl HX for HXx {}
+impl HX for HZero {}
 
 /// SplitMix64: every random choice of the harness derives from one such state
 #[derive(Clone)]
